@@ -228,6 +228,68 @@ theorem contrib_some {s : State} {j : Nat} {x : Sub} (h : s.subs.get j = some x)
     contrib s j a d = if x.addr = a then rem s.allocs s.payouts j x d else 0 := by
   unfold contrib; rw [h]
 
+
+/-! ### the unsettled part, by kind of subscription -/
+
+theorem rem_gb {A : Tbl (Nat × Addr) Alloc} {P : Tbl Nat Payout} {i : Nat} {x : Sub} {n : Addr} {gb hr : Int} {dep : Coin}
+    (hk : x.kind = .node n gb hr dep) (hgb : gb ≠ 0) (d : Denom) :
+    rem A P i x d = if dep.denom = d then dep.amount - charge (Int.tdiv dep.amount gb) (usedOf A i x.addr) else 0 := by
+  unfold rem; rw [hk]; simp only [hgb, ne_eq, not_false_eq_true, if_true]
+
+theorem rem_hr {A : Tbl (Nat × Addr) Alloc} {P : Tbl Nat Payout} {i : Nat} {x : Sub} {n : Addr} {hr : Int} {dep : Coin} {p : Payout}
+    (hk : x.kind = .node n 0 hr dep) (hp : P.get i = some p) (d : Denom) :
+    rem A P i x d = if p.price.denom = d then p.price.amount * p.hours else 0 := by
+  unfold rem; rw [hk]; simp only [ne_eq, not_true_eq_false, if_false, hp]
+
+theorem rem_plan {A : Tbl (Nat × Addr) Alloc} {P : Tbl Nat Payout} {i : Nat} {x : Sub} {pid : Nat} {dn : Denom}
+    (hk : x.kind = .plan pid dn) (d : Denom) : rem A P i x d = 0 := by
+  unfold rem; rw [hk]
+
+theorem usedOf_some {A : Tbl (Nat × Addr) Alloc} {i : Nat} {a : Addr} {al : Alloc} (h : A.get (i, a) = some al) :
+    usedOf A i a = al.used := by
+  unfold usedOf; rw [h]
+
+theorem subWF_plan {A : Tbl (Nat × Addr) Alloc} {P : Tbl Nat Payout} {i : Nat} {x : Sub} {pid : Nat} {dn : Denom}
+    (hk : x.kind = .plan pid dn) : SubWF A P i x := by
+  unfold SubWF; rw [hk]; trivial
+
+/-- A new subscription under an unused id. -/
+theorem EscrowSplit.create {s s' : State} {j : Nat} {x : Sub} (hi : EscrowSplit s) (hn : Tbl.Nodup s.subs)
+    (hf : s.subs.get j = none) (hS : s'.subs = s.subs.set j x)
+    (hA : ∀ i a, i ≠ j → s'.allocs.get (i, a) = s.allocs.get (i, a))
+    (hP : ∀ i, i ≠ j → s'.payouts.get i = s.payouts.get i)
+    (hD : ∀ a d, escrowOf s' a d = escrowOf s a d + (if x.addr = a then rem s'.allocs s'.payouts j x d else 0))
+    (hW : SubWF s'.allocs s'.payouts j x) : EscrowSplit s' := by
+  have hg : s'.subs.get j = some x := by rw [hS, Tbl.get_set]; simp
+  refine EscrowSplit.local j hi hn (by rw [hS]; exact Tbl.nodup_set hn j x) ?_ hA hP ?_ ?_
+  · intro i hne; rw [hS, Tbl.get_set_ne _ _ (Ne.symm hne)]
+  · intro a d; rw [hD a d, contrib_none hf, contrib_some hg]; omega
+  · intro y hy; rw [hg] at hy; cases hy; exact hW
+
+/-- The record at `j` rewritten (or kept), allocations and payouts changed at `j` only, with the same
+unsettled part; escrow records untouched. -/
+theorem EscrowSplit.rewrite {s s' : State} {j : Nat} {x x' : Sub} (hi : EscrowSplit s) (hn : Tbl.Nodup s.subs)
+    (hx : s.subs.get j = some x) (hS : s'.subs = s.subs.set j x' ∨ (s'.subs = s.subs ∧ x' = x))
+    (hA : ∀ i a, i ≠ j → s'.allocs.get (i, a) = s.allocs.get (i, a))
+    (hP : ∀ i, i ≠ j → s'.payouts.get i = s.payouts.get i)
+    (hdep : s'.deposits = s.deposits)
+    (hR : ∀ a d, (if x'.addr = a then rem s'.allocs s'.payouts j x' d else 0) = (if x.addr = a then rem s.allocs s.payouts j x d else 0))
+    (hW : SubWF s'.allocs s'.payouts j x') : EscrowSplit s' := by
+  have hg : s'.subs.get j = some x' := by
+    rcases hS with hS | ⟨hS, e⟩
+    · rw [hS, Tbl.get_set]; simp
+    · rw [hS, e]; exact hx
+  refine EscrowSplit.local j hi hn ?_ ?_ hA hP ?_ ?_
+  · rcases hS with hS | ⟨hS, _⟩
+    · rw [hS]; exact Tbl.nodup_set hn j x'
+    · rw [hS]; exact hn
+  · intro i hne
+    rcases hS with hS | ⟨hS, _⟩
+    · rw [hS, Tbl.get_set_ne _ _ (Ne.symm hne)]
+    · rw [hS]
+  · intro a d; rw [escrowOf_deposits hdep, contrib_some hx, contrib_some hg, hR a d]; omega
+  · intro y hy; rw [hg] at hy; cases hy; exact hW
+
 /-! ### escrow records under the deposit keeper's writes -/
 
 theorem escrowOf_deposits {s s' : State} (h : s'.deposits = s.deposits) (a : Addr) (d : Denom) :
